@@ -2,6 +2,8 @@ import RimeModel.C18.Utf8Thms
 /-! scalar round trips of C18 (plain, double-quoted, literal block) proved here, restated in Props/C18.lean -/
 namespace RimeModel.C18
 
+set_option linter.unusedSimpArgs false
+
 /-! ### `splitOn` -/
 
 theorem splitOn_cons_exists (sep : UInt8) (xs : Bytes) : ∃ cur rest, splitOn sep xs = cur :: rest := by
